@@ -278,7 +278,7 @@ func genStop(t *rapid.T, c *Case, o GenOpts) *StopSpec {
 	if o.Repeat && rapid.IntRange(0, 3).Draw(t, "mkRepeat") == 0 {
 		s := c.Step(st.Step)
 		s.Repeat = true
-		s.RepeatIvUS = rapid.SampledFrom([]int{0, 200, 800}).Draw(t, "repIv")
+		s.RepeatIvUS = rapid.SampledFrom([]int{0, 200, 800, 3000}).Draw(t, "repIv")
 		s.FailFirst = 0
 		s.RetryLimit = -1
 		if st.Trigger == "create" || st.Trigger == "enter" || st.Trigger == "exit" {
